@@ -30,7 +30,7 @@ impl Compiler {
 
         self.compile_typed_stmt(body)?;
 
-        let jump_dist = (self.current_offset() - loop_start + 1) as i16;
+        let jump_dist = self.jump_dist((self.current_offset() - loop_start + 1) as isize);
         self.emit_b(OpCode::Jump, 0, -jump_dist, span);
 
         self.patch_jump(exit_jump);
@@ -118,7 +118,7 @@ impl Compiler {
         // Patch the initial jump to point here (to ForLoopI)
         self.patch_jump(jump_to_forloop);
 
-        let offset = (self.current_offset() - loop_start + 1) as i16;
+        let offset = self.jump_dist((self.current_offset() - loop_start + 1) as isize);
         self.emit_b(opcode, iter_reg, -offset, span);
 
         let ctx = self.loop_stack.pop().ok_or_else(|| {
@@ -129,7 +129,7 @@ impl Compiler {
             )
         })?;
         for jump in ctx.continue_jumps {
-            let offset_to_target = (continue_target as isize - jump as isize - 1) as i16;
+            let offset_to_target = self.jump_dist(continue_target as isize - jump as isize - 1);
             *self.current.bytecode_mut(jump) =
                 (OpCode::Jump as u32) << 24 | ((offset_to_target as u32) & 0xFFFFFF);
         }
@@ -251,7 +251,7 @@ impl Compiler {
         self.patch_jump(jump_to_forloop);
 
         // Emit VecForLoop/ArrayForLoop: operates on elem_reg (consecutive regs)
-        let offset = (self.current_offset() - loop_start + 1) as i16;
+        let offset = self.jump_dist((self.current_offset() - loop_start + 1) as isize);
         self.emit_b(opcode, elem_reg, -offset, span);
 
         let ctx = self.loop_stack.pop().ok_or_else(|| {
@@ -262,7 +262,7 @@ impl Compiler {
             )
         })?;
         for jump in ctx.continue_jumps {
-            let offset_to_target = (continue_target as isize - jump as isize - 1) as i16;
+            let offset_to_target = self.jump_dist(continue_target as isize - jump as isize - 1);
             *self.current.bytecode_mut(jump) =
                 (OpCode::Jump as u32) << 24 | ((offset_to_target as u32) & 0xFFFFFF);
         }
@@ -332,7 +332,7 @@ impl Compiler {
         self.patch_jump(jump_to_forloop);
 
         // Emit StringForLoop: operates on char_reg (consecutive regs)
-        let offset = (self.current_offset() - loop_start + 1) as i16;
+        let offset = self.jump_dist((self.current_offset() - loop_start + 1) as isize);
         self.emit_b(OpCode::StringForLoop, char_reg, -offset, span);
 
         let ctx = self.loop_stack.pop().ok_or_else(|| {
@@ -343,7 +343,7 @@ impl Compiler {
             )
         })?;
         for jump in ctx.continue_jumps {
-            let offset_to_target = (continue_target as isize - jump as isize - 1) as i16;
+            let offset_to_target = self.jump_dist(continue_target as isize - jump as isize - 1);
             *self.current.bytecode_mut(jump) =
                 (OpCode::Jump as u32) << 24 | ((offset_to_target as u32) & 0xFFFFFF);
         }
